@@ -347,6 +347,40 @@ static void build(vf::Plan &plan, const vf::Opts &o)
                        return strf("%u bytes at alignment %u", (*lp)[i], a);
                    });
     }
+    // ---- caller's output buffer and the text's own storage directly next to each other (the buffer ends where the text begins;
+    // the buffer begins right after the text's terminator): neighbours are not overlap
+    {
+        plan.stage("adjacent storage: caller-buffer decoders with the output buffer directly before / directly after the text's heap block, 12 sizes x hex / base64", 12 * 2 * 2,
+                   [](uint64_t i, Ctx &c) {
+                       static const unsigned NS[12] = {12, 13, 14, 15, 16, 17, 24, 31, 32, 33, 48, 100};
+                       unsigned n = NS[vf::take(i, 12)], codec = (unsigned)vf::take(i, 2), layout = (unsigned)i;
+                       std::string d = sweep_data((uint64_t)n * 256 + n % 256);
+                       std::string text = codec ? ref::b64_encode((const unsigned char *)d.data(), d.size()) : ref::hex_encode((const unsigned char *)d.data(), d.size());
+                       alignas(16) static char region[1024];
+                       memset(region, 0xEE, sizeof region);
+                       const size_t L = text.size();
+                       char *out = layout == 0 ? region : region + L + 1;
+                       char *blk = layout == 0 ? region + n : region;
+                       vf::Outcome o = vf::guard([&] {
+                           vf::g_alloc.place_next = blk;
+                           vf::g_alloc.place_cap = L + 1;
+                           ST::string t = ST::string::from_validated(text.data(), text.size());
+                           vf::g_alloc.place_next = nullptr;
+                           if (t.c_str() != blk) return;  // the string did not take the placed block (in-object storage): nothing to test
+                           ST_ssize_t r = codec ? ST::base64_decode(t, out, n) : ST::hex_decode(t, out, n);
+                           VF_COUNT("ops");
+                           VF_COUNT("validated");
+                           if (r != (ST_ssize_t)n || memcmp(out, d.data(), n) != 0)
+                               c.fail(strf("%s_decode(buffer):adjacent-storage:%s", codec ? "base64" : "hex", layout == 0 ? "buffer-ends-where-the-text-begins" : "buffer-begins-after-the-terminator"),
+                                      strf("%u bytes: returned %zd%s", n, (ssize_t)r, r == (ST_ssize_t)n ? " with wrong bytes" : ""));
+                           if (std::string(t.c_str(), t.size()) != text) c.fail("decode(buffer):adjacent-storage:text-changed", strf("%u bytes, layout %u", n, layout));
+                       });
+                       vf::g_alloc.place_next = nullptr;
+                       if (!o.ok()) c.fail(strf("adjacent-storage:%s", vf::outkind_name(o.kind)), o.str());
+                       c.nontrivial();
+                   },
+                   [](uint64_t i) { return strf("adjacent layout case %llu", (unsigned long long)i); });
+    }
     vf_early::add_stage(plan);
 }
 
